@@ -365,6 +365,36 @@ class TestCmd:
             ops.append(op)
         return {"pattern": pat["pattern"], "epoch": epoch.isoformat(), "state": state, "ops": ops}
 
+    def shrink(self, case):
+        """Simpler flags, clock moves and part values (op dropping is done by the generic shrinker)."""
+        for i, op in enumerate(case["ops"]):
+            for k in list(op.get("flags", {})):
+                cand = dict(case)
+                op2 = dict(op)
+                op2["flags"] = {a: b for a, b in op["flags"].items() if a != k}
+                cand["ops"] = case["ops"][:i] + [op2] + case["ops"][i + 1:]
+                yield cand
+            for key, val in (("delta", 0), ("date_flag", False), ("sv", None), ("date_and_pin", None)):
+                if op.get(key) not in (val, None):
+                    cand = dict(case)
+                    op2 = dict(op)
+                    if val is None:
+                        op2.pop(key, None)
+                    else:
+                        op2[key] = val
+                    cand["ops"] = case["ops"][:i] + [op2] + case["ops"][i + 1:]
+                    yield cand
+        for f, val in case["state"].items():
+            simple = {"major": 1, "minor": 0, "patch": 0, "inc0": 0, "inc1": 1, "num": 0, "bid": "1001", "tag": "final"}.get(f)
+            if simple is not None and val != simple:
+                if f == "tag" and case["state"].get("num"):
+                    continue
+                cand = dict(case)
+                st = dict(case["state"])
+                st[f] = simple
+                cand["state"] = st
+                yield cand
+
     def run(self, case, ctx):
         pattern = case["pattern"]
         tree = rl.tokenize_any(pattern)
